@@ -45,6 +45,7 @@ let build_arg (items : Sx.t list) : AotTree.arg =
     | "global" -> glob := true
     | "hide" -> hide := true
     | "required" -> req := true
+    | "cx" -> ()  (* conflicts_with: read by the zsh generator only *)
     | h -> failwith ("unknown arg item " ^ h)) (Stdlib.List.tl items);
   { AotTree.a_id = id; a_short = !short; a_long = !long;
     a_short_aliases = Stdlib.List.rev !sa; a_aliases = Stdlib.List.rev !la;
